@@ -44,6 +44,8 @@ pub enum Op {
     /// a fatal accept error on listener `l` with a client waiting there, while the accept thread
     /// is kept busy with other events: the client must be served roughly 500 ms later all the same
     BackoffBusy { l: u16 },
+    /// a client whose handler occupies its worker thread (blocking section) for `ms` ms
+    HoldBusy { l: u16, ms: u16 },
     Stop { graceful: bool, twice: bool, drop_future: bool },
 }
 
@@ -80,6 +82,7 @@ struct World {
     limit: usize,
     panic_next: AtomicBool,
     factory_count: AtomicUsize,
+    block_ms: AtomicUsize,
 }
 
 struct EchoSvc {
@@ -134,8 +137,16 @@ where
             if tokio::time::timeout(Duration::from_secs(10), stream.read_exact(&mut id)).await.map(|r| r.is_err()).unwrap_or(true) {
                 return Ok(());
             }
-            w.calls.lock().unwrap().push(Call { listener, worker_thread: tid, conn: u32::from_le_bytes(id) });
+            let idv = u32::from_le_bytes(id);
+            w.calls.lock().unwrap().push(Call { listener, worker_thread: tid, conn: idv & 0x7fff_ffff });
             let _ = stream.write_all(b"G").await;
+            let _ = stream.flush().await;
+            if idv & 0x8000_0000 != 0 {
+                // a handler that occupies the worker thread (blocking / CPU-bound section)
+                let ms = w.block_ms.load(Ordering::SeqCst) as u64;
+                std::thread::sleep(Duration::from_millis(ms));
+                return Ok(());
+            }
             // hold the connection until the client releases it (a byte) or goes away
             let mut b = [0u8; 1];
             let _ = stream.read(&mut b).await;
@@ -224,6 +235,8 @@ struct Run {
     limit: usize,
     panics: usize,
     backoff_until: Vec<Option<Instant>>,
+    /// a worker thread is occupied by a blocking handler until then
+    busy_until: Option<Instant>,
 }
 
 impl Run {
@@ -272,7 +285,8 @@ impl Run {
             self.refresh();
             let (h, wt) = (self.held(), self.waiting());
             let in_backoff = self.backoff_until.iter().any(|b| b.map(|t| Instant::now() < t).unwrap_or(false));
-            let want_more = !self.paused && !self.stopped && wt > 0 && h < cap;
+            let busy = self.busy_until.map(|t| Instant::now() < t + Duration::from_millis(300)).unwrap_or(false);
+            let want_more = !self.paused && !self.stopped && !busy && wt > 0 && h < cap;
             if !want_more {
                 break;
             }
@@ -327,7 +341,7 @@ fn run_once(c: &Case, prop: Prop) -> Result<Obs, (Fail, bool)> {
     let nl = c.listeners.len().clamp(1, 2);
     let workers = c.workers.clamp(1, 3);
     let limit = c.limit.clamp(1, 4);
-    let w = Arc::new(World { calls: Mutex::new(vec![]), gauge: Mutex::new(HashMap::new()), over_limit: Mutex::new(None), limit, panic_next: AtomicBool::new(false), factory_count: AtomicUsize::new(0) });
+    let w = Arc::new(World { calls: Mutex::new(vec![]), gauge: Mutex::new(HashMap::new()), over_limit: Mutex::new(None), limit, panic_next: AtomicBool::new(false), factory_count: AtomicUsize::new(0), block_ms: AtomicUsize::new(0) });
     // listeners are bound here so that their fds are known (accept-error injection is keyed by fd)
     let mut addrs = vec![];
     let mut fds = vec![];
@@ -445,6 +459,7 @@ fn run_once(c: &Case, prop: Prop) -> Result<Obs, (Fail, bool)> {
         limit,
         panics: 0,
         backoff_until: vec![None; nl],
+        busy_until: None,
     };
     let mut next_id = 0u32;
     let mut stop_checked = false;
@@ -592,6 +607,29 @@ fn run_once(c: &Case, prop: Prop) -> Result<Obs, (Fail, bool)> {
                 }
             }
             Op::Sleep { ms } => thread::sleep(Duration::from_millis(ms as u64 % 700)),
+            Op::HoldBusy { l, ms } => {
+                r.refresh();
+                if r.paused || r.busy_until.is_some() || r.clients.len() >= 11 || r.held() >= r.workers * r.limit || r.waiting() > 0 {
+                    continue;
+                }
+                let l = vcore::pick(l, nl);
+                let LAddr::Tcp(a) = &r.addrs[l] else { continue };
+                let Ok(mut s) = std::net::TcpStream::connect_timeout(a, BOUND) else { continue };
+                let _ = socket2::SockRef::from(&s).set_linger(Some(Duration::ZERO));
+                let ms = 2500 + (ms as u64 % 1000);
+                r.w.block_ms.store(ms as usize, Ordering::SeqCst);
+                let id = next_id;
+                next_id += 1;
+                let _ = s.write_all(&(id | 0x8000_0000).to_le_bytes());
+                let _ = s.set_read_timeout(Some(BOUND));
+                let mut b = [0u8; 1];
+                if s.read_exact(&mut b).is_ok() {
+                    // greeted: the handler now blocks its worker thread
+                    r.busy_until = Some(Instant::now() + Duration::from_millis(ms));
+                    r.label("worker-thread-busy");
+                }
+                r.clients.push(Client { id, listener: l, sock: Sock::Tcp(s), state: CState::Released, connected_at: Instant::now(), served_at: None, connected_while_paused: false });
+            }
             Op::BackoffBusy { l } => {
                 r.refresh();
                 if r.paused || r.clients.len() >= 11 || r.held() >= r.workers * r.limit || r.waiting() > 0 {
@@ -708,6 +746,13 @@ fn run_once(c: &Case, prop: Prop) -> Result<Obs, (Fail, bool)> {
                             };
                             if took + Duration::from_millis(20) < lower {
                                 r.flag(Prop::C06, "C06/graceful-too-early", format!("graceful stop completed after {:?} although {} connection(s) in progress were released only after {:?} and shutdown_timeout is {:?}", took, held_at_stop.len(), released_at.map(|t| t.duration_since(t0)), timeout), false);
+                            }
+                        }
+                        // a forced stop does not wait for a handler that occupies its worker thread
+                        if let (false, Some(bu)) = (graceful, r.busy_until) {
+                            let left = bu.saturating_duration_since(t0);
+                            if left > Duration::from_millis(1500) && took > Duration::from_millis(1200) {
+                                r.flag(Prop::C06, "C06/forced-waited", format!("forced stop took {:?} while a handler kept a worker thread busy for another {:?}: it waited for a connection in progress", took, left), true);
                             }
                         }
                         if !graceful && took > BOUND {
@@ -838,6 +883,7 @@ pub mod gen {
         pub inject: u32,
         pub panic: u32,
         pub stop: u32,
+        pub busy: u32,
         pub uds: bool,
         pub max_limit: usize,
     }
@@ -868,6 +914,9 @@ pub mod gen {
         if p.panic > 0 {
             alts.push((p.panic, Just(vec![Op::PanicNext, Op::Settle]).boxed()));
             alts.push((p.panic, (sel(), sel()).prop_map(|(l, l2)| vec![Op::PanicNext, Op::Connect { l }, Op::Connect { l: l2 }, Op::Settle]).boxed()));
+        }
+        if p.busy > 0 {
+            alts.push((p.busy, (sel(), any::<u16>()).prop_map(|(l, ms)| vec![Op::HoldBusy { l, ms }]).boxed()));
         }
         let body = prop::collection::vec(proptest::strategy::Union::new_weighted(alts), 1..6);
         let stop = if p.stop > 0 {
